@@ -315,15 +315,21 @@ impl Consume for SenderFlowState {
     /// does not have any effect. Thus, this IS cancel safe.
     async fn consume(&self, item: Self::Item) -> Self::Outcome {
         loop {
+            // Register for the wake-up before looking at the credit: `notify_waiters` only
+            // wakes waiters that already exist, so a grant that lands between the check and
+            // the start of the wait would otherwise be lost and the send would hang
+            let notified = self.notifier.notified();
+            tokio::pin!(notified);
+            notified.as_mut().enable();
             match consume_link_credit(&self.state().lock, item) {
                 Ok(outcome) => return outcome,
                 #[cfg(fe2o3_amqp_verif)]
                 Err(_) => {
                     crate::verif::preempt("sender-credit-wait").await;
-                    self.notifier.notified().await
+                    notified.await
                 }
                 #[cfg(not(fe2o3_amqp_verif))]
-                Err(_) => self.notifier.notified().await, // **NOT** cancel safe
+                Err(_) => notified.await, // **NOT** cancel safe
             }
         }
     }
